@@ -5,179 +5,11 @@
    model run on code laid out that way reaches the globals of the semantics
    (induction on the fuel; the loop is re-entered at its start pc). *)
 From Coq Require Import ZArith NArith List Bool Lia ZifyBool ZifyNat ZifyN Floats.
-From EvyV Require Import Base Bytecode BytecodeProofs SymTab SymTabProofs Vm VmProofs Compile CompileProofs
+From EvyV Require Import Base Bytecode BytecodeProofs SymTab SymTabProofs Vm VmProofs Compile CompileSem CompileProofs
      CompileWfProofs CompileStmtProofs CompileJumpProofs CompileHoleProofs CompileSymProofs CompileCtlProofs.
 Require Import EvyV.Gen.Opcodes.
 Import ListNotations.
 Open Scope N_scope.
-
-(* ---------- semantics ---------- *)
-(* [None]: out of fuel, or an expression whose evaluation is undefined
-   (eval_expr), or a statement outside the fragment; the boolean of a result
-   says that a `break` is under way (the innermost enclosing loop ends it) *)
-(* the element of an iterable at position i: OpIterRange *)
-Definition iter_elem (iter : value) (i : nat) : option value :=
-  match iter with
-  | VArr l => nth_error l i
-  | VMap m => option_map (fun kv => VStr (fst kv)) (nth_error m i)
-  | VStr s => let runes := utf8_decode s in
-              if (i <? List.length runes)%nat then Some (VStr (utf8_encode (firstn 1 (skipn i runes)))) else None
-  | _ => None
-  end.
-(* None: the counter is not a non-negative integer (cannot happen from 0 by +1
-   below 2^53); Some None: the iteration is over *)
-Definition iter_next (iter : value) (idx : float) : option (option value) :=
-  match float_to_Z idx with
-  | Some z => if (z <? 0)%Z then None else Some (iter_elem iter (Z.to_nat z))
-  | None => None
-  end.
-
-(* OpStepRange's `stillGoing` *)
-Definition going (idx stp stop : float) : bool :=
-  (PrimFloat.ltb 0 stp && PrimFloat.ltb idx stop) || (PrimFloat.ltb stp 0 && PrimFloat.ltb stop idx).
-
-Fixpoint exec_s (fuel : nat) (s : stmt) (env : genv) {struct fuel} : option (genv * bool) :=
-  match fuel with
-  | O => None
-  | S f =>
-      match s with
-      | SDecl n e => option_map (fun v => (upd env n v, false)) (eval_expr env e)
-      | SAssign (EVar n) e => option_map (fun v => (upd env n v, false)) (eval_expr env e)
-      | SEmpty => Some (env, false)
-      | SBreak => Some (env, true)
-      | SIf c b elifs els => exec_c f (CCons c b elifs) els env
-      | SForStep None start stop step b =>
-          match eval_expr env stop, eval_expr env (match step with OSome e => e | ONoneE => ENum 1 end),
-                eval_expr env (match start with OSome e => e | ONoneE => ENum 0 end) with
-          | Some (VNum vstop), Some (VNum vstep), Some (VNum vstart) =>
-              if PrimFloat.eqb vstep 0 then None          (* ErrRangeValue *)
-              else exec_r f vstart vstep vstop b env
-          | _, _, _ => None
-          end
-      | SForStep (Some n) start stop step b =>
-          (* the loop variable: at top level a global, set to none first *)
-          match eval_expr env stop, eval_expr env (match step with OSome e => e | ONoneE => ENum 1 end),
-                eval_expr env (match start with OSome e => e | ONoneE => ENum 0 end) with
-          | Some (VNum vstop), Some (VNum vstep), Some (VNum vstart) =>
-              if PrimFloat.eqb vstep 0 then None
-              else exec_rv f n vstart vstep vstop b (upd env n VNone)
-          | _, _, _ => None
-          end
-      | SForIter (Some n) t e b =>
-          (* over the elements of an array / the characters of a string / the keys of a map *)
-          match t with
-          | TStr | TArr | TMap =>
-              match eval_expr env e with
-              | Some iter => exec_iv f n 0%float iter b (upd env n VNone)
-              | None => None
-              end
-          | _ => None
-          end
-      | SWhile c b =>
-          match eval_expr env c with
-          | Some (VBool true) =>
-              match exec_l f b env with
-              | Some (env1, false) => exec_s f (SWhile c b) env1
-              | Some (env1, true) => Some (env1, false)          (* break leaves the loop *)
-              | None => None
-              end
-          | Some (VBool false) => Some (env, false)
-          | _ => None
-          end
-      | _ => None
-      end
-  end
-with exec_l (fuel : nat) (l : slist) (env : genv) {struct fuel} : option (genv * bool) :=
-  match fuel with
-  | O => None
-  | S f =>
-      match l with
-      | SNil => Some (env, false)
-      | SCons s1 t =>
-          match exec_s f s1 env with
-          | Some (env1, false) => exec_l f t env1
-          | Some (env1, true) => Some (env1, true)               (* the rest of the block is skipped *)
-          | None => None
-          end
-      end
-  end
-(* `for range start stop step` without loop variable, from index idx on *)
-with exec_r (fuel : nat) (idx stp stop : float) (b : slist) (env : genv) {struct fuel} : option (genv * bool) :=
-  match fuel with
-  | O => None
-  | S f =>
-      if going idx stp stop then
-        match exec_l f b env with
-        | Some (env1, false) => exec_r f (idx + stp)%float stp stop b env1
-        | Some (env1, true) => Some (env1, false)              (* break leaves the loop *)
-        | None => None
-        end
-      else Some (env, false)
-  end
-(* `for n := range start stop step`, from index idx on *)
-with exec_rv (fuel : nat) (n : str) (idx stp stop : float) (b : slist) (env : genv) {struct fuel} : option (genv * bool) :=
-  match fuel with
-  | O => None
-  | S f =>
-      if going idx stp stop then
-        match exec_l f b (upd env n (VNum idx)) with
-        | Some (env1, false) => exec_rv f n (idx + stp)%float stp stop b env1
-        | Some (env1, true) => Some (env1, false)
-        | None => None
-        end
-      else Some (env, false)
-  end
-(* `for n := range iter`, from (float) index idx on *)
-with exec_iv (fuel : nat) (n : str) (idx : float) (iter : value) (b : slist) (env : genv) {struct fuel} : option (genv * bool) :=
-  match fuel with
-  | O => None
-  | S f =>
-      match iter_next iter idx with
-      | Some (Some v) =>
-          match exec_l f b (upd env n v) with
-          | Some (env1, false) => exec_iv f n (idx + 1)%float iter b env1
-          | Some (env1, true) => Some (env1, false)
-          | None => None
-          end
-      | Some None => Some (env, false)
-      | None => None
-      end
-  end
-(* the condition chain of an if statement: the first true condition runs its block *)
-with exec_c (fuel : nat) (l : clist) (els : oslist) (env : genv) {struct fuel} : option (genv * bool) :=
-  match fuel with
-  | O => None
-  | S f =>
-      match l with
-      | CNil => match els with NoElse => Some (env, false) | Else eb => exec_l f eb env end
-      | CCons c b t =>
-          match eval_expr env c with
-          | Some (VBool true) => exec_l f b env
-          | Some (VBool false) => exec_c f t els env
-          | _ => None
-          end
-      end
-  end.
-
-(* the deepest expression of a statement *)
-Fixpoint sdepth (s : stmt) : N :=
-  match s with
-  | SDecl _ e | SAssign _ e => edepth e
-  | SIf c b elifs els => N.max (edepth c) (N.max (ldepth b) (N.max (cdepth elifs) (match els with NoElse => 0 | Else eb => ldepth eb end)))
-  | SWhile c b => N.max (edepth c) (ldepth b)
-  | SForStep _ start stop step b =>
-      (* the operands are evaluated on top of each other; the loop keeps 3 slots and pushes a flag *)
-      N.max (edepth stop)
-        (N.max (1 + edepth (match step with OSome e => e | ONoneE => ENum 1 end))
-           (N.max (2 + edepth (match start with OSome e => e | ONoneE => ENum 0 end))
-              (N.max 5 (3 + ldepth b))))
-  | SForIter _ _ e b => N.max (edepth e) (N.max 4 (2 + ldepth b))
-  | _ => 0
-  end
-with ldepth (l : slist) : N :=
-  match l with SNil => 0 | SCons s t => N.max (sdepth s) (ldepth t) end
-with cdepth (l : clist) : N :=
-  match l with CNil => 0 | CCons c b t => N.max (edepth c) (N.max (ldepth b) (cdepth t)) end.
 
 (* ---------- the layout of compiled statements ---------- *)
 Definition same_resolve (a b : symtab) : Prop := forall n, st_resolve n a = st_resolve n b.
@@ -224,6 +56,12 @@ Inductive LAY : option N -> stmt -> cstate -> cstate -> list Z -> list N -> Prop
     compile_expr true (match start with OSome e => e | ONoneE => ENum 0 end) s2 = COk s3 -> ccode s3 = ccode s2 ++ seg3 ->
     LAYR b s3 st' 3 StepRange seg_r ->
     LAY brk (SForStep None start stop step b) st st' [] (seg1 ++ seg2 ++ seg3 ++ seg_r)
+| lay_foriter brk t e b st s1 s2 st' seg1 segk seg_r :
+    (t = TStr \/ t = TArr \/ t = TMap) ->
+    efrag e = true -> compile_expr true e st = COk s1 -> ccode s1 = ccode st ++ seg1 ->
+    emit_const true (KNum 0) s1 = COk s2 -> ccode s2 = ccode s1 ++ segk ->
+    LAYR b s2 st' 2 IterRange seg_r ->
+    LAY brk (SForIter None t e b) st st' [] (seg1 ++ segk ++ seg_r)
 | lay_if brk c b elifs els st ste st' js bs seg :
     LAYC brk true (CCons c b elifs) els st ste (N.of_nat (List.length (ccode st)) + N.of_nat (List.length seg)) js bs seg ->
     cconsts st' = cconsts ste -> csym st' = csym st ->
@@ -375,6 +213,30 @@ Proof.
     match goal with |- (if ?c then _ else _) = _ => destruct c eqn:E; [apply N.ltb_lt in E; lia|reflexivity] end.
 Qed.
 
+Lemma step_iterrange p vs pre post idx iter base :
+  pcode p = pre ++ [N_of_opc IterRange; 0; 0] ++ post -> ip vs = N.of_nat (List.length pre) ->
+  ostack vs = VNum idx :: iter :: base ->
+  N.of_nat (List.length (locals vs)) + N.of_nat (List.length base) + 3 <= StackSize ->
+  forall r, iter_next iter idx = Some r ->
+  vm_step p vs = Running {| ip := ip vs + 3;
+                            ostack := VBool (match r with Some _ => true | None => false end) :: VNum (idx + 1)%float :: iter :: base;
+                            locals := locals vs; globals := globals vs |}.
+Proof.
+  intros HC HI HS HR r HN. rewrite (fetch_arg p vs IterRange 0 0 pre post HC HI eq_refl).
+  unfold exec. rewrite HS. cbn [List.length Nat.ltb Nat.leb]. change (0 * 256 + 0) with 0.
+  unfold iter_next in HN. unfold iter_range. destruct (float_to_Z idx) as [z|]; [|discriminate].
+  destruct (z <? 0)%Z; [discriminate|]. inversion HN; subst r. unfold iter_elem.
+  cbn [N.eqb negb].
+  set (val := match iter with
+              | VArr l => nth_error l (Z.to_nat z)
+              | VMap m => option_map (fun kv => VStr (fst kv)) (nth_error m (Z.to_nat z))
+              | VStr s => if (Z.to_nat z <? List.length (utf8_decode s))%nat then Some (VStr (utf8_encode (firstn 1 (skipn (Z.to_nat z) (utf8_decode s))))) else None
+              | _ => None
+              end).
+  unfold with_stack. destruct val; cbn [List.length];
+    match goal with |- (if ?c then _ else _) = _ => destruct c eqn:E; [apply N.ltb_lt in E; lia|reflexivity] end.
+Qed.
+
 Lemma step_drop2 p vs pre post a b base :
   pcode p = pre ++ [N_of_opc Drop; 0; 2] ++ post -> ip vs = N.of_nat (List.length pre) ->
   ostack vs = a :: b :: base ->
@@ -456,6 +318,9 @@ Proof.
     | HF : efrag ?e = true, HC : compile_expr true ?e ?st = COk ?st1 |- _ =>
         let nc := fresh "nc" in let K := fresh "K" in let SE := fresh "SE" in
         destruct (efrag_consts e st st1 HF HC) as [(nc & K) SE]; clear HC
+    | HC : emit_const true ?k ?st = COk ?st1 |- _ =>
+        let K := fresh "Kk" in let SE := fresh "SEk" in
+        destruct (const_sl _ _ _ HC) as (_ & SE & _ & K); clear HC
     | H : (exists newc, _) /\ _ |- _ => let nb := fresh "nb" in let Kb := fresh "Kb" in let Sb := fresh "Sb" in destruct H as [(nb & Kb) Sb]
     end;
     (split; [first [exists []; rewrite app_nil_r; first [reflexivity|assumption] | chain_consts]
@@ -529,6 +394,23 @@ Definition SIMr (fuel : nat) (b : slist) (s3 st' : cstate) (seg : list N) : Prop
     N.of_nat (List.length base) + 4 <= StackSize -> N.of_nat (List.length base) + 3 + ldepth b <= StackSize ->
     exists vs', reaches p vs vs' /\ ip vs' = ip vs + N.of_nat (List.length seg) /\ mstate_ok G s3 env' base vs'.
 
+Definition SIMi (fuel : nat) (b : slist) (s3 st' : cstate) (seg : list N) : Prop :=
+  forall G env env' br idx iter base, exec_i fuel idx iter b env = Some (env', br) -> forall p vs pre post,
+    pcode p = pre ++ seg ++ post -> List.length pre = List.length (ccode s3) -> consts_of p st' ->
+    ip vs = N.of_nat (List.length pre) ->
+    mstate_ok G s3 env (VNum idx :: iter :: base) vs ->
+    sym_static (csym s3) -> slots_distinct (csym s3) ->
+    N.of_nat (List.length base) + 3 <= StackSize -> N.of_nat (List.length base) + 2 + ldepth b <= StackSize ->
+    exists vs', reaches p vs vs' /\ ip vs' = ip vs + N.of_nat (List.length seg) /\ mstate_ok G s3 env' base vs'.
+
+Lemma exec_i_false : forall fuel idx iter b env env' br,
+  exec_i fuel idx iter b env = Some (env', br) -> br = false.
+Proof.
+  induction fuel as [|f IH]; intros idx iter b env env' br H; [discriminate|]. cbn [exec_i] in H.
+  destruct (iter_next iter idx) as [[v|]|]; [|inversion H; reflexivity|discriminate].
+  destruct (exec_l f b env) as [[env1 [|]]|]; [inversion H; reflexivity|apply (IH _ _ _ _ _ _ H)|discriminate].
+Qed.
+
 Lemma exec_r_false : forall fuel idx stp stop b env env' br,
   exec_r fuel idx stp stop b env = Some (env', br) -> br = false.
 Proof.
@@ -579,11 +461,12 @@ Theorem sim_all : forall fuel,
   (forall T s st st' bs seg, LAY (Some T) s st st' bs seg -> SIMs fuel T s st st' seg) /\
   (forall T l st st' bs seg, LAYL (Some T) l st st' bs seg -> SIMl fuel T l st st' seg) /\
   (forall T l els st st' End js bs seg, LAYC (Some T) true l els st st' End js bs seg -> SIMc fuel T l els st st' End seg) /\
-  (forall b s3 st' seg, LAYR b s3 st' 3 StepRange seg -> SIMr fuel b s3 st' seg).
+  (forall b s3 st' seg, LAYR b s3 st' 3 StepRange seg -> SIMr fuel b s3 st' seg) /\
+  (forall b s3 st' seg, LAYR b s3 st' 2 IterRange seg -> SIMi fuel b s3 st' seg).
 Proof.
-  induction fuel as [|f (IHs & IHl & IHc & IHr)].
+  induction fuel as [|f (IHs & IHl & IHc & IHr & IHi)].
   - repeat split; intros; intros G env env' br; intros; simpl in *; discriminate.
-  - split; [|split; [|split]].
+  - split; [|split; [|split; [|split]]].
     + intros T s st st' bs seg HL. inversion HL; subst; intros G env env' br base HX p vs pre post HP HLen HK HI HM HSS HSD HDp.
       * (* assign *)
         cbn [exec_s] in HX. destruct (eval_expr env e) as [v|] eqn:HE; [|discriminate]. inversion HX; subst env' br.
@@ -723,6 +606,46 @@ Proof.
         -- eapply reaches_trans; [exact R1|]. eapply reaches_trans; [exact R2|]. eapply reaches_trans; [exact R3|exact R4].
         -- rewrite I4. unfold vs3, vs2, vs1; simpl. rewrite !app_length. lia.
         -- destruct HM4 as (A1 & A2 & A3 & A4 & A5). rewrite S3, S2, S1 in A3, A4. repeat split; auto.
+      * (* for range iterable (no loop variable): the iterable, the counter 0, the loop part *)
+        cbn [exec_s] in HX. cbn [sdepth] in HDp.
+        assert (HX' : match eval_expr env e with Some iter => exec_i f 0%float iter b env | None => None end = Some (env', br))
+          by (destruct H as [->|[->| ->]]; exact HX). clear HX.
+        destruct (eval_expr env e) as [iter|] eqn:HE1; [|discriminate].
+        pose proof (exec_i_false _ _ _ _ _ _ _ HX') as ->.
+        destruct (efrag_consts e st s1 H0 H1) as [(n1 & K1) S1].
+        destruct (const_correct _ _ _ H3) as (S2 & segk' & C2 & K2 & D2).
+        assert (segk' = segk) by (rewrite C2 in H4; apply app_inv_head in H4; exact H4). subst segk'.
+        destruct (proj2 (proj2 (proj2 lay_frame)) _ _ _ _ _ _ H5) as [(nr & Kr) Sr].
+        assert (HK2 : consts_of p s2) by (apply (consts_of_prefix p s2 st' nr Kr HK)).
+        assert (HK1 : consts_of p s1) by (apply (consts_of_prefix p s1 s2 [KNum 0] K2 HK2)).
+        pose proof (expr_runs G e st s1 seg1 env iter base p vs pre (segk ++ seg_r ++ post) H0 H1 H2 HE1 HSS
+                      ltac:(rewrite HP, <- !app_assoc; reflexivity) HK1 HI HM ltac:(lia)) as R1.
+        set (vs1 := {| ip := ip vs + N.of_nat (List.length seg1); ostack := iter :: base; locals := locals vs; globals := globals vs |}) in *.
+        destruct HM as (M1 & M2 & M3 & M4 & M5).
+        destruct HK2 as (more2 & HK2).
+        destruct (D2 p vs1 more2 (pre ++ seg1) (seg_r ++ post)) as (nk & R2).
+        { rewrite HP, <- !app_assoc. reflexivity. }
+        { exact HK2. }
+        { unfold vs1; simpl. rewrite HI, app_length. lia. }
+        { unfold vs1; simpl. rewrite M2. simpl. lia. }
+        cbn [const_value] in R2.
+        set (vs2 := {| ip := ip vs1 + N.of_nat (List.length segk); ostack := VNum 0 :: ostack vs1; locals := locals vs1; globals := globals vs1 |}) in *.
+        assert (HM2 : mstate_ok G s2 env (VNum 0 :: iter :: base) vs2).
+        { unfold mstate_ok, vs2, vs1; simpl. rewrite S2, S1. repeat split; auto. }
+        destruct (IHi b s2 st' seg_r H5 G env env' false 0%float iter base HX' p vs2 (pre ++ seg1 ++ segk) post) as (vs4 & R4 & I4 & HM4).
+        { rewrite HP, <- !app_assoc. reflexivity. }
+        { rewrite !app_length, H4, H2, !app_length, HLen. lia. }
+        { exact HK. }
+        { unfold vs2, vs1; simpl. rewrite HI, !app_length. lia. }
+        { exact HM2. }
+        { rewrite S2, S1; exact HSS. }
+        { rewrite S2, S1; exact HSD. }
+        { lia. }
+        { lia. }
+        exists vs4. split; [|split].
+        -- eapply reaches_trans; [exact R1|]. eapply reaches_trans; [exists nk; exact R2|exact R4].
+        -- rewrite I4. unfold vs2, vs1; simpl. rewrite !app_length. lia.
+        -- destruct HM4 as (A1 & A2 & A3 & A4 & A5). rewrite S2, S1 in A3, A4. repeat split; auto.
       * (* if: the chain *)
         cbn [exec_s] in HX. cbn [sdepth] in HDp.
         destruct (IHc _ _ _ _ _ _ _ _ _ H G env env' br base HX p vs pre post HP HLen) as (vs' & R & I & HM'); auto.
@@ -885,6 +808,75 @@ Proof.
            set (vs4 := {| ip := N.of_nat (List.length (ccode s3)); ostack := ostack vs3; locals := locals vs3; globals := globals vs3 |}) in *.
            assert (HM4 : mstate_ok G s3 env1 base' vs4) by (unfold vs4, mstate_ok; simpl; repeat split; auto).
            destruct (IHr b s3 st' _ HL G env1 env' br (idx + stp)%float stp stop base HX p vs4 pre post HP HLen HK) as (vs5 & R5 & I5 & HM5); auto.
+           { unfold vs4; simpl. rewrite HLen. reflexivity. }
+           exists vs5. split; [|split; [|exact HM5]].
+           ++ eapply reaches_trans; [apply reaches_step; exact R1|]. eapply reaches_trans; [apply reaches_step; exact R2|].
+              eapply reaches_trans; [exact R3|]. eapply reaches_trans; [apply reaches_step; exact R4|exact R5].
+           ++ rewrite I5. unfold vs4; simpl. rewrite HI, HLen. reflexivity.
+      * (* the range is exhausted *)
+        inversion HX; subst env' br.
+        set (vs2 := {| ip := Endp; ostack := base'; locals := locals vs1; globals := globals vs1 |}) in *.
+        destruct (EXIT env vs2 eq_refl eq_refl M2 M3 M4 M5) as (vs' & RE & IE & ME).
+        exists vs'. split; [|split; [exact IE|exact ME]].
+        eapply reaches_trans; [apply reaches_step; exact R1|]. eapply reaches_trans; [apply reaches_step; exact R2|exact RE].
+    + intros b s3 st' seg HL. inversion HL; subst.
+      intros G env env' br idx iter base HX p vs pre post HP HLen HK HI HM HSS HSD HD4 HDb.
+      cbn [exec_i] in HX.
+      set (sr := [N_of_opc IterRange; 0; 0]) in *. set (dr := [N_of_opc Drop; 0; 2]) in *.
+      set (Endp := N.of_nat (List.length (ccode s3)) + N.of_nat (List.length (sr ++ jf ++ seg_b ++ jb))) in *.
+      destruct (lay_frame) as (_ & LF & _). destruct (LF _ _ _ _ _ _ H2) as [(nb & Kb) Sb].
+      assert (HKb : consts_of p stb) by (destruct HK as (more & HK); exists more; rewrite HK, H5; reflexivity).
+      pose proof (jbytes_len _ _ _ H3) as Ljf. pose proof (jbytes_len _ _ _ H4) as Ljb.
+      destruct HM as (M1 & M2 & M3 & M4 & M5).
+      destruct (iter_next iter idx) as [r|] eqn:HN; [|discriminate].
+      pose proof (step_iterrange p vs pre (jf ++ seg_b ++ jb ++ dr ++ post) idx iter base
+                    ltac:(rewrite HP; unfold sr; rewrite <- !app_assoc; reflexivity) HI M1 ltac:(rewrite M2; simpl; lia) r HN) as R1.
+      set (gg := match r with Some _ => true | None => false end) in *.
+      set (vs1 := {| ip := ip vs + 3; ostack := VBool gg :: VNum (idx + 1)%float :: iter :: base;
+                     locals := locals vs; globals := globals vs |}) in *.
+      set (base' := VNum (idx + 1)%float :: iter :: base) in *.
+      pose proof (step_jof p vs1 (pre ++ sr) (seg_b ++ jb ++ dr ++ post) jf _ gg base' H3
+                    ltac:(rewrite HP, <- !app_assoc; reflexivity)
+                    ltac:(unfold vs1, sr; simpl; rewrite HI, app_length; simpl; lia) eq_refl) as R2.
+      (* the exit: OpDrop 3 *)
+      assert (EXIT : forall env2 vsd, ip vsd = Endp -> ostack vsd = base' -> locals vsd = [] ->
+                globals_hold env2 (csym s3) (globals vsd) -> slots_exist (csym s3) (globals vsd) -> List.length (globals vsd) = G ->
+                exists vs', reaches p vsd vs' /\ ip vs' = ip vs + N.of_nat (List.length (sr ++ jf ++ seg_b ++ jb ++ dr)) /\ mstate_ok G s3 env2 base vs').
+      { intros env2 vsd ID OD LD GD SD ND.
+        pose proof (step_drop2 p vsd (pre ++ sr ++ jf ++ seg_b ++ jb) post _ _ base
+                      ltac:(rewrite HP; unfold dr; rewrite <- !app_assoc; reflexivity)
+                      ltac:(rewrite ID; unfold Endp; rewrite !app_length, HLen, !Nat2N.inj_add; lia) OD) as RD.
+        eexists. split; [apply reaches_step; exact RD|]. split.
+        - simpl. rewrite ID, HI. unfold Endp, dr. rewrite !app_length, HLen. simpl. lia.
+        - unfold mstate_ok; simpl. repeat split; auto. }
+      destruct r as [v|]; unfold gg in *; clear gg.
+      * destruct (exec_l f b env) as [[env1 brb]|] eqn:HXb; [|discriminate].
+        set (vs2 := {| ip := ip vs1 + 3; ostack := base'; locals := locals vs1; globals := globals vs1 |}) in *.
+        assert (HM2 : mstate_ok G stx env base' vs2).
+        { apply (mstate_same G s3 stx); [exact H0|]. unfold vs2, vs1; simpl. repeat split; auto. }
+        destruct (IHl _ b stx stb _ seg_b H2 G env env1 brb base' HXb p vs2 (pre ++ sr ++ jf) (jb ++ dr ++ post)) as (vs3 & R3 & I3 & HM3).
+        { rewrite HP, <- !app_assoc. reflexivity. }
+        { rewrite !app_length, Ljf. apply Nat2N.inj. rewrite H1, !Nat2N.inj_add, HLen. unfold sr. simpl. lia. }
+        { exact HKb. }
+        { unfold vs2, vs1; cbn [ip]. rewrite HI, !app_length, Ljf. unfold sr. simpl. lia. }
+        { exact HM2. }
+        { apply (sym_static_same (csym s3)); assumption. }
+        { apply (slots_distinct_same (csym s3)); assumption. }
+        { unfold base'. cbn [List.length]. lia. }
+        pose proof (mstate_same_back G s3 stx env1 base' vs3 H0 HM3) as (B1 & B2 & B3 & B4 & B5).
+        destruct brb.
+        -- (* break: the machine is at the OpDrop *)
+           inversion HX; subst env' br.
+           destruct (EXIT env1 vs3 I3 B1 B2 B3 B4 B5) as (vs' & RE & IE & ME).
+           exists vs'. split; [|split; [exact IE|exact ME]].
+           eapply reaches_trans; [apply reaches_step; exact R1|]. eapply reaches_trans; [apply reaches_step; exact R2|].
+           eapply reaches_trans; [exact R3|exact RE].
+        -- pose proof (step_jump p vs3 (pre ++ sr ++ jf ++ seg_b) (dr ++ post) jb _ H4
+                         ltac:(rewrite HP, <- !app_assoc; reflexivity)
+                         ltac:(rewrite I3; unfold vs2, vs1; cbn [ip]; rewrite HI, !app_length, Ljf; unfold sr; simpl; lia)) as R4.
+           set (vs4 := {| ip := N.of_nat (List.length (ccode s3)); ostack := ostack vs3; locals := locals vs3; globals := globals vs3 |}) in *.
+           assert (HM4 : mstate_ok G s3 env1 base' vs4) by (unfold vs4, mstate_ok; simpl; repeat split; auto).
+           destruct (IHi b s3 st' _ HL G env1 env' br (idx + 1)%float iter base HX p vs4 pre post HP HLen HK) as (vs5 & R5 & I5 & HM5); auto.
            { unfold vs4; simpl. rewrite HLen. reflexivity. }
            exists vs5. split; [|split; [|exact HM5]].
            ++ eapply reaches_trans; [apply reaches_step; exact R1|]. eapply reaches_trans; [apply reaches_step; exact R2|].
@@ -1101,22 +1093,6 @@ Qed.
 (* ====================================================================== *)
 (* Part 2: the compiler lays its code out that way                         *)
 (* ====================================================================== *)
-Fixpoint wfrag_stmt (s : stmt) : bool :=
-  match s with
-  | SAssign (EVar _) e => efrag e
-  | SEmpty => true
-  | SBreak => true
-  | SIf c b elifs els =>
-      efrag c && wfrag_slist b && wfrag_clist elifs && match els with NoElse => true | Else eb => wfrag_slist eb end
-  | SWhile c b => efrag c && wfrag_slist b
-  | SForStep None start stop step b => ofrag start && efrag stop && ofrag step && wfrag_slist b
-  | _ => false
-  end
-with wfrag_slist (l : slist) : bool :=
-  match l with SNil => true | SCons s t => wfrag_stmt s && wfrag_slist t end
-with wfrag_clist (l : clist) : bool :=
-  match l with CNil => true | CCons c b t => efrag c && wfrag_slist b && wfrag_clist t end.
-
 Lemma patch_bytes pre a h l rest T s s' :
   ccode s = pre ++ a :: h :: l :: rest ->
   patch true (Z.of_nat (List.length pre)) T s = COk s' ->
@@ -1196,6 +1172,7 @@ Proof.
     apply lay_break; auto. exists hi, lo. auto.
   - rewrite patch_all_nil in HP. inversion HP; subst x'. eexists. repeat split; eauto. eapply lay_while; eauto.
   - rewrite patch_all_nil in HP. inversion HP; subst x'. eexists. repeat split; eauto. eapply lay_forstep; eauto.
+  - rewrite patch_all_nil in HP. inversion HP; subst x'. eexists. repeat split; eauto. eapply lay_foriter; eauto.
   - destruct (H eq_refl x x' pre post HC HLen HP) as (seg' & C' & K' & S' & B' & L' & LY).
     exists seg'. repeat split; auto. eapply lay_if; eauto. rewrite L'. exact LY.
   - rewrite patch_all_nil in HP. inversion HP; subst x'. exists []. repeat split; auto. constructor.
@@ -1356,34 +1333,34 @@ Proof.
     destruct (emit true JumpOnFalse [JumpPlaceholderZ] c); cbn [bind]; reflexivity.
 Qed.
 
-Lemma layr_steprange_ok b s3 st' : slist_lay b ->
-  for_loop true None StepRange 3 b s3 = COk st' -> gsym (csym s3) -> has_gb (csym s3) ->
-  exists seg_r, LAYR b s3 st' 3 StepRange seg_r /\ ccode st' = ccode s3 ++ seg_r /\
+Lemma layr_ok rop S b s3 st' : range_op rop S -> slist_lay b ->
+  for_loop true None rop (Z.of_N S) b s3 = COk st' -> gsym (csym s3) -> has_gb (csym s3) ->
+  exists seg_r, LAYR b s3 st' S rop seg_r /\ ccode st' = ccode s3 ++ seg_r /\
                 cbreaks st' = cbreaks s3 /\ csym st' = csym s3.
 Proof.
-  intros HB HC HG HGB. rewrite for_loop_none_body in HC.
-  destruct (emit true StepRange [0%Z] s3) as [st2|] eqn:E1; [|discriminate]. cbn [bind] in HC.
+  intros HRO HB HC HG HGB. rewrite for_loop_none_body in HC.
+  assert (X1 : make (N_of_opc rop) [0%Z] = Some [N_of_opc rop; 0; 0]) by (destruct HRO as [[-> ->]|[-> ->]]; vm_compute; reflexivity).
+  assert (X5 : make (N_of_opc Drop) [Z.of_N S] = Some [N_of_opc Drop; 0; S]) by (destruct HRO as [[-> ->]|[-> ->]]; vm_compute; reflexivity).
+  destruct (emit true rop [0%Z] s3) as [st2|] eqn:E1; [|discriminate]. cbn [bind] in HC.
   destruct (emit true JumpOnFalse [JumpPlaceholderZ] st2) as [st3|] eqn:E2; [|discriminate]. cbn [bind] in HC.
   destruct (body_of true b (with_sym (st_push (csym st3)) (with_breaks [] st3))) as [st4|] eqn:E3; [|discriminate]. cbn [bind] in HC.
   destruct (emit true Jump [pos_of s3] (with_sym (st_pop (csym st4)) st4)) as [st5|] eqn:E4; [|discriminate]. cbn [bind] in HC.
-  destruct (emit true Drop [3%Z] st5) as [st6|] eqn:E5; [|discriminate]. cbn [bind] in HC.
+  destruct (emit true Drop [Z.of_N S] st5) as [st6|] eqn:E5; [|discriminate]. cbn [bind] in HC.
   destruct (patch true (pos_of st2) (pos_of st5) st6) as [st7|] eqn:E6; [|discriminate]. cbn [bind] in HC.
   destruct (patch_all true (cbreaks st6) (pos_of st5) st7) as [st8|] eqn:E7; [|discriminate]. cbn [bind] in HC.
   inversion HC; subst st'; clear HC.
   apply emit_ok in E1. destruct E1 as (ins1 & HM1 & ->).
-  assert (X1 : make (N_of_opc StepRange) [0%Z] = Some [N_of_opc StepRange; 0; 0]) by (vm_compute; reflexivity).
-  assert (Y1 : ins1 = [N_of_opc StepRange; 0; 0]) by congruence. subst ins1. clear X1 HM1.
+  assert (Y1 : ins1 = [N_of_opc rop; 0; 0]) by congruence. subst ins1. clear X1 HM1.
   apply emit_hole_bytes in E2; [|reflexivity]. destruct E2 as (h0 & l0 & ->). cbn [ccode cconsts csym cbreaks] in *.
-  set (sr := [N_of_opc StepRange; 0; 0]) in *.
+  set (sr := [N_of_opc rop; 0; 0]) in *.
   destruct (HB _ _ E3) as (bs_b & seg_b & L & Cb & Bb & Sb); cbn [with_sym with_breaks csym];
     [apply gsym_push; exact HG|apply has_gb_push; exact HGB|].
   cbn [with_sym with_breaks ccode cconsts csym cbreaks app] in Cb, Bb, Sb.
   apply emit_jump_bytes in E4. destruct E4 as (jb & HJB & ->). cbn [with_sym ccode cconsts csym cbreaks] in *.
   apply emit_ok in E5. destruct E5 as (ins5 & HM5 & ->).
-  assert (X5 : make (N_of_opc Drop) [3%Z] = Some [N_of_opc Drop; 0; 3]) by (vm_compute; reflexivity).
-  assert (Y5 : ins5 = [N_of_opc Drop; 0; 3]) by congruence. subst ins5. clear X5 HM5.
+  assert (Y5 : ins5 = [N_of_opc Drop; 0; S]) by congruence. subst ins5. clear X5 HM5.
   cbn [ccode cconsts csym cbreaks] in *.
-  set (dr := [N_of_opc Drop; 0; 3]) in *.
+  set (dr := [N_of_opc Drop; 0; S]) in *.
   pose proof (jbytes_len _ _ _ HJB) as Ljb.
   assert (C6 : (ccode st4 ++ jb) ++ dr = (ccode s3 ++ sr) ++ N_of_opc JumpOnFalse :: h0 :: l0 :: (seg_b ++ jb ++ dr)).
   { rewrite Cb, <- !app_assoc. reflexivity. }
@@ -1408,7 +1385,7 @@ Proof.
   match type of LY8 with LAYL (Some ?X) _ _ _ _ _ => replace X with (N.of_nat (List.length (ccode s3)) + N.of_nat (List.length (sr ++ jf ++ seg_b' ++ jb))) in LY8 by (rewrite LEN, EH; reflexivity) end.
   exists (sr ++ jf ++ seg_b' ++ jb ++ dr).
   split; [|split; [|split]].
-  - refine (layr StepRange 3 b s3 _ st4 _ bs_b seg_b' jf jb _ _ _ LY8 _ _ _ _).
+  - refine (layr rop S b s3 _ st4 _ bs_b seg_b' jf jb _ _ _ LY8 _ _ _ _).
     + reflexivity.
     + apply same_resolve_push.
     + cbn [with_sym with_breaks ccode]. unfold sr. rewrite !app_length. simpl. lia.
@@ -1419,6 +1396,29 @@ Proof.
   - cbn [with_breaks ccode]. rewrite C8. unfold jf. rewrite <- !app_assoc. reflexivity.
   - reflexivity.
   - cbn [with_breaks csym]. rewrite S8, Sb. apply pop_push_id. exact HG.
+Qed.
+
+Lemma lay_foriter_ok t e b st st' :
+  (t = TStr \/ t = TArr \/ t = TMap) -> efrag e = true -> slist_lay b ->
+  compile_stmt true (SForIter None t e b) st = COk st' -> gsym (csym st) -> has_gb (csym st) ->
+  LAYOK (SForIter None t e b) st st'.
+Proof.
+  intros Ht F HB HC HG HGB. cbn [compile_stmt] in HC.
+  assert (HC' : compile_expr true e st >>= emit_const true (KNum 0) >>= for_loop true None IterRange 2 b = COk st')
+    by (destruct Ht as [->|[->| ->]]; exact HC). clear HC.
+  destruct (compile_expr true e st) as [s1|] eqn:E1; [|discriminate]. cbn [bind] in HC'.
+  destruct (emit_const true (KNum 0) s1) as [s2|] eqn:E2; [|discriminate]. cbn [bind] in HC'.
+  destruct (efrag_sl _ F st s1 E1) as (S1 & o1 & c1 & C1 & K1 & _). pose proof (efrag_breaks _ F _ _ E1) as B1.
+  destruct (const_correct _ _ _ E2) as (S2 & segk & C2 & K2 & _).
+  assert (B2 : cbreaks s2 = cbreaks s1) by (unfold emit_const in E2; apply emit_breaks in E2; exact E2).
+  change 2%Z with (Z.of_N 2) in HC'.
+  destruct (layr_ok IterRange 2 b s2 st' (or_intror (conj eq_refl eq_refl)) HB HC') as (seg_r & LR & CR & BR & SR);
+    [rewrite S2, S1; exact HG|rewrite S2, S1; exact HGB|].
+  exists [], (encode o1 ++ segk ++ seg_r). split; [|split; [|split]].
+  - eapply lay_foriter; eauto.
+  - rewrite CR, C2, C1, <- !app_assoc. reflexivity.
+  - rewrite app_nil_r. congruence.
+  - congruence.
 Qed.
 
 (* `for n := range …` at top level: the prologue (define n; OpNone; OpSetGlobal)
@@ -1538,7 +1538,7 @@ Proof.
   destruct (efrag_sl _ F2 st s1 E1) as (S1 & o1 & c1 & C1 & K1 & _). pose proof (efrag_breaks _ F2 _ _ E1) as B1.
   destruct (efrag_sl _ F3' s1 s2 E2) as (S2 & o2 & c2 & C2 & K2 & _). pose proof (efrag_breaks _ F3' _ _ E2) as B2.
   destruct (efrag_sl _ F1' s2 s3 E3) as (S3 & o3 & c3 & C3 & K3 & _). pose proof (efrag_breaks _ F1' _ _ E3) as B3.
-  destruct (layr_steprange_ok b s3 st' HB HC) as (seg_r & LR & CR & BR & SR);
+  destruct (layr_ok StepRange 3 b s3 st' (or_introl (conj eq_refl eq_refl)) HB HC) as (seg_r & LR & CR & BR & SR);
     [rewrite S3, S2, S1; exact HG|rewrite S3, S2, S1; exact HGB|].
   exists [], (encode o1 ++ encode o2 ++ encode o3 ++ seg_r). split; [|split; [|split]].
   - eapply lay_forstep; eauto.
@@ -1729,7 +1729,11 @@ Proof.
     apply andb_true_iff in HF. destruct HF as [HF F4]. apply andb_true_iff in HF. destruct HF as [HF F3].
     apply andb_true_iff in HF. destruct HF as [F1 F2].
     apply (lay_forstep_ok start stop step b st st' F1 F2 F3 (Hb F4) HC HG HGB).
-  - intros lv t e b _ HF. discriminate.
+  - intros lv t e b Hb HF st st' HC HG HGB. cbn [wfrag_stmt] in HF. destruct lv; [discriminate|].
+    assert (Ht : t = TStr \/ t = TArr \/ t = TMap) by (destruct t; try discriminate HF; auto).
+    assert (HF' : efrag e && wfrag_slist b = true) by (destruct t; try discriminate HF; exact HF).
+    apply andb_true_iff in HF'. destruct HF' as [F1 F2].
+    apply (lay_foriter_ok t e b st st' Ht F1 (Hb F2) HC HG HGB).
   - intros _ st st' HC _ _. apply (lay_break_ok st st' HC).
   - intros _ st st' HC _ _. cbn [compile_stmt] in HC. inversion HC; subst.
     exists [], []. split; [constructor|]. split; [rewrite app_nil_r; reflexivity|]. split; [rewrite app_nil_r; reflexivity|reflexivity].
@@ -1752,18 +1756,6 @@ Qed.
 (* ====================================================================== *)
 (* Part 3: whole programs, from NewCompiler and NewVM                      *)
 (* ====================================================================== *)
-(* no break outside a loop *)
-Fixpoint nb_stmt (s : stmt) : bool :=
-  match s with
-  | SBreak => false
-  | SIf c b elifs els => nb_slist b && nb_clist elifs && match els with NoElse => true | Else eb => nb_slist eb end
-  | _ => true
-  end
-with nb_slist (l : slist) : bool :=
-  match l with SNil => true | SCons s t => nb_stmt s && nb_slist t end
-with nb_clist (l : clist) : bool :=
-  match l with CNil => true | CCons c b t => nb_slist b && nb_clist t end.
-
 Lemma nb_no_breaks :
   (forall brk s st st' bs seg, LAY brk s st st' bs seg -> nb_stmt s = true -> bs = []) /\
   (forall brk l st st' bs seg, LAYL brk l st st' bs seg -> nb_slist l = true -> bs = []) /\
@@ -1779,15 +1771,6 @@ Proof.
   - apply H. exact H1.
   - cbn [nb_clist] in H1. apply andb_true_iff in H1. destruct H1 as [F1 F2]. rewrite (H F1), (H0 F2 H2). reflexivity.
 Qed.
-
-Definition psfrag_stmt (s : stmt) : bool :=
-  match s with
-  | SDecl _ e => efrag e
-  | SForStep (Some _) start stop step b => ofrag start && efrag stop && ofrag step && wfrag_slist b
-  | SForIter (Some _) t e b => match t with TStr | TArr | TMap => efrag e && wfrag_slist b | _ => false end
-  | _ => wfrag_stmt s && nb_stmt s
-  end.
-Fixpoint psfrag (p : slist) : bool := match p with SNil => true | SCons s t => psfrag_stmt s && psfrag t end.
 
 Definition STEP (s : stmt) (st st' : cstate) : Prop :=
   forall fuel env env1, exec_s fuel s env = Some (env1, false) ->
